@@ -9,6 +9,7 @@ import (
 	"os/exec"
 	"sort"
 	"strconv"
+	"strings"
 	"sync"
 	"testing"
 	"time"
@@ -78,15 +79,27 @@ func (w *World) c19Balances() map[string]string {
 }
 
 // c19Conservation returns two quantities that no reward allocation - successful, failed or partly failed - may change:
-// what the rewards pool holds beyond the consumers' credits, and what the distribution module holds beyond what it owes
-// (validators' outstanding rewards plus the community pool).
+// what the rewards pool holds beyond the consumers' credits (exact), and what the distribution module holds beyond what it owes
+// (validators' outstanding rewards plus the community pool; compared up to one base unit per denom, because every payout
+// leaves the per-validator truncation dust of observation O1 - at most 1e-18 of the amount per validator - unowed).
 func (w *World) c19Conservation() map[string]string {
 	ctx := w.P.Ctx()
 	bk := w.P.PApp.BankKeeper
 	dk := w.P.PApp.DistrKeeper
+	// signed difference per denom, rendered "denom=amount;..." in denom order
 	sub := func(a, b sdk.DecCoins) string {
-		d, neg := a.SafeSub(b)
-		return fmt.Sprintf("%s negative=%v", d.String(), neg)
+		denoms := map[string]bool{}
+		for _, c := range a {
+			denoms[c.Denom] = true
+		}
+		for _, c := range b {
+			denoms[c.Denom] = true
+		}
+		out := ""
+		for _, d := range keysOf(denoms) {
+			out += fmt.Sprintf("%s=%s;", d, a.AmountOf(d).Sub(b.AmountOf(d)).String())
+		}
+		return out
 	}
 	pool := sdk.NewDecCoinsFromCoins(bk.GetAllBalances(ctx, authtypes.NewModuleAddress(providertypes.ConsumerRewardsPool))...)
 	credits := sdk.DecCoins{}
@@ -441,7 +454,7 @@ func TestC19Faults(t *testing.T) {
 			}
 			for what, pre := range base.PreCons {
 				agg.Eval("C19")
-				if base.Cons[what] != pre {
+				if !conservedC19(what, pre, base.Cons[what]) {
 					agg.Violation("C19", fmt.Sprintf("tokens-created-or-lost-in-fault-free-block:%s:%s", what, scenario), map[string]any{"before": pre, "after": base.Cons[what], "variant": variant})
 				}
 			}
@@ -474,6 +487,41 @@ func TestC19Faults(t *testing.T) {
 	agg.Finish(os.Getenv("VERIF_OUT"), start, fatal)
 }
 
+// conservedC19 compares one conservation measure before and after a block: exactly for the pool, up to one base unit per denom for
+// the distribution module (truncation dust, see c19Conservation).
+func conservedC19(what, pre, post string) bool {
+	if what == "pool-minus-credits" {
+		return pre == post
+	}
+	parse := func(s string) map[string]math.LegacyDec {
+		m := map[string]math.LegacyDec{}
+		for _, kv := range strings.Split(s, ";") {
+			if i := strings.LastIndexByte(kv, '='); i > 0 {
+				if d, err := math.LegacyNewDecFromStr(kv[i+1:]); err == nil {
+					m[kv[:i]] = d
+				}
+			}
+		}
+		return m
+	}
+	a, b := parse(pre), parse(post)
+	for d := range b {
+		if _, ok := a[d]; !ok {
+			a[d] = math.LegacyZeroDec()
+		}
+	}
+	for d, av := range a {
+		bv, ok := b[d]
+		if !ok {
+			bv = math.LegacyZeroDec()
+		}
+		if av.Sub(bv).Abs().GTE(math.LegacyOneDec()) {
+			return false
+		}
+	}
+	return true
+}
+
 func judgeC19(w *World, base, o *c19Outcome, variant int) {
 	site := "<none>"
 	if o.Injected != nil {
@@ -504,7 +552,7 @@ func judgeC19(w *World, base, o *c19Outcome, variant int) {
 	// token conservation across the block under test, whatever failed
 	for what, pre := range o.PreCons {
 		w.Eval("C19")
-		if o.Cons[what] != pre {
+		if !conservedC19(what, pre, o.Cons[what]) {
 			w.Violation("C19", fmt.Sprintf("tokens-created-or-lost-under-injected-fault:%s:%s", what, tag), det(map[string]any{"before": pre, "after": o.Cons[what]}))
 		}
 	}
